@@ -42,6 +42,7 @@ type C05Case struct {
 
 func genC05(t *rapid.T) C05Case {
 	params := ctlsim.Params{Shards: rapid.SampledFrom([]int{0, 1, 3, 3, 5, 5}).Draw(t, "shards")}
+	avoidParams = params
 	g := newG(t, c05Profile())
 	g.genWorld()
 	c := HistCase{Params: params}
